@@ -78,7 +78,7 @@ type node struct {
 	kind string // dir file symlink
 }
 
-var oddNames = []string{"plain", "with space", "dot.ted", ".hidden", "naïve-ü", "tab\there", "trailing.", "UPPER", "a", "ünï", "semi;colon", "star*", "q?mark", "back\\slash", "new\nline"}
+var oddNames = []string{"plain", "with space", "dot.ted", ".hidden", "naïve-ü", "tab\there", "trailing.", "UPPER", "a", "ünï", "semi;colon", "star*", "q?mark", "back\\slash", "new\nline", "..data", "...", "..2"}
 
 // buildTree creates a random tree and returns its nodes.
 func buildTree(root string, r *core.Rand, deep bool) []node {
@@ -160,6 +160,27 @@ func buildTree(root string, r *core.Rand, deep bool) []node {
 				_ = os.WriteFile(filepath.Join(root, tgt, fmt.Sprintf("behind-link-%d", li)), []byte("behind"), 0o644)
 				nodes = append(nodes, node{filepath.Join(tgt, fmt.Sprintf("behind-link-%d", li)), "file"})
 			}
+		}
+	}
+	// names that begin with two dots and are not "..", directly under the root and one level down
+	for _, base := range []string{"", "dotdotnames"} {
+		if base != "" {
+			if os.Mkdir(filepath.Join(root, base), 0o755) != nil {
+				continue
+			}
+			nodes = append(nodes, node{base, "dir"})
+		}
+		if os.WriteFile(filepath.Join(root, base, "..data"), []byte("two dots and a name"), 0o644) == nil {
+			nodes = append(nodes, node{filepath.Join(base, "..data"), "file"})
+		}
+		if os.Mkdir(filepath.Join(root, base, "..."), 0o755) == nil {
+			nodes = append(nodes, node{filepath.Join(base, "..."), "dir"})
+			if os.WriteFile(filepath.Join(root, base, "...", "..in"), []byte("x"), 0o600) == nil {
+				nodes = append(nodes, node{filepath.Join(base, "...", "..in"), "file"})
+			}
+		}
+		if os.Symlink("..data", filepath.Join(root, base, "..link")) == nil {
+			nodes = append(nodes, node{filepath.Join(base, "..link"), "symlink"})
 		}
 	}
 	if deep {
